@@ -194,6 +194,10 @@ CONTEXTS = {
     'if-else': ('<dtml-if nothing>no<dtml-else>%s</dtml-if>', None),
     'with-only-let-in': ('<dtml-with w only><dtml-let zz=one><dtml-in outer>%s</dtml-in></dtml-let></dtml-with>', 'w'),
     'subtemplate': (None, None),
+    # sub-templates of the plain (unguarded) class: rendered before the channel, and around it; the guards of the
+    # namespace must stay those of the template that was called
+    'after-plain-subtemplate': ('<dtml-var plainhdr>%s', None),
+    'in-plain-subtemplate': (None, None),
 }
 
 
@@ -216,8 +220,13 @@ def run_case(ch, cls, secret, syn='html', ctx='plain', deny=None):
     kw = dict(kw)
     kw.update(one=1, outer=[7], nothing=0)
     wrap, via = CONTEXTS[ctx]
+    from DocumentTemplate.DT_HTML import HTML as _PlainHTML
+    kw['plainhdr'] = _PlainHTML('<dtml-if one></dtml-if>')          # renders nothing
     if ctx == 'subtemplate':
         kw['inner_tpl'] = gclass(syn)(text)
+        text = '<dtml-var inner_tpl>'
+    elif ctx == 'in-plain-subtemplate':
+        kw['inner_tpl'] = _PlainHTML(text)
         text = '<dtml-var inner_tpl>'
     else:
         text = wrap % text
@@ -290,7 +299,7 @@ def main(tier):
     for ch in CHANNELS:
         for cls in ('public', 'private', 'denied'):
             for ctx in CONTEXTS:
-                if ch[0] == 'subtemplate' and ctx != 'plain':
+                if ch[0] == 'subtemplate' and ctx not in ('plain', 'after-plain-subtemplate'):
                     continue
                 ra, oa = run_case(ch, cls, secrets(ch, 'A'), 'html', ctx)
                 if ra is None:
@@ -306,7 +315,7 @@ def main(tier):
             continue
         for r in range(0, 5):
             for dset in itertools.combinations(range(4), r):
-                for ctx in ('plain', 'with-only', 'in'):
+                for ctx in ('plain', 'with-only', 'in', 'after-plain-subtemplate'):
                     mk = lambda which: Seq('c', ['v%d%s' % (i, which if i in dset else '') for i in range(4)])
                     ch2 = (ch[0], ch[1], ch[2], (lambda s_, A, mk=mk: (None, {'q': s_})), ch[4])
                     deny = [('c', str(i)) for i in dset]
